@@ -15,6 +15,8 @@ bool sym_out_equal(unsigned long, unsigned long, unsigned long, unsigned long);
 bool sym_deep_equal(void* a, unsigned long na, void* b, unsigned long nb);
 void* cur_getput(int, uint32_t, uint32_t, uint32_t, unsigned long*);
 void* ref_getput(int, uint32_t, uint32_t, uint32_t, unsigned long*);
+unsigned long cur_blocksize();
+unsigned long ref_blocksize();
 bool ref_supported(uint32_t, uint32_t, uint32_t);
 bool cur_supported(uint32_t, uint32_t, uint32_t);
 }
@@ -31,6 +33,7 @@ extern "C" void h_c08(int type, int vclass) {
 	unsigned long sr = 0, sc = 0;
 	unsigned long o0 = sym_out_len();
 	void* r = ref_getput(type, f, u, s, &sr);
+	unsigned long bsr = ref_blocksize();
 	unsigned long nr = sym_in_pos();
 	unsigned long o1 = sym_out_len();
 	sym_reach("loaded");
@@ -39,6 +42,7 @@ extern "C" void h_c08(int type, int vclass) {
 	unsigned long nc = sym_in_pos();
 	unsigned long o2 = sym_out_len();
 	sym_assert(nr == nc, "C08-consumed: builds consume a different number of bytes for the same block");
+	sym_assert(bsr == cur_blocksize(), "C08-blocksize: builds record different block sizes (header size table) for the same block");
 	sym_assert(sym_out_equal(o0, o1, o1, o2), "C08-reencode: builds re-encode the same input to different bytes");
 	if (sr == sc)
 		sym_assert(sym_deep_equal(r, sr, c, sc), "C08-content: builds decode the same bytes to different content");
